@@ -1,150 +1,295 @@
 ------------------------------- MODULE RwLock -------------------------------
-(* DRAFT (round 0).  Literal model of src/sync/rwlock.rs (no cancellation here, so the
-   SyncBlocker hand-shake degenerates to a token).  Models, as written:
-     - try_lock(): load, then CAS; a *lost CAS* on a poisoned lock returns Poisoned
-     - lock(): maps Poisoned to Err(Timeout); read()/write()/try_write() only test for
-       Canceled / WouldBlock, i.e. treat it as acquired
-     - try_read(): `RwLockReadGuard::new(self)?` returns the guard inside the error
-       *before* `*r += 1`
-   Fix1/Fix2 switch the candidate repairs on. *)
+(* Literal model of src/sync/rwlock.rs: the global lock (cnt + FIFO of SyncBlockers, the same
+   hand-shake as Mutex), the reader count `r` protected by the internal mutex `rlock`, and the poison
+   flag.  pc[a] = name of the verification point the actor is stopped at; labels without a dot are
+   internal.  `rlock` is abstract: an owner plus a FIFO of blocked lockers (its own protocol is
+   Mutex.tla); an actor that finds it taken blocks *inside* the step that passed the point and
+   continues when the lock is handed to it.
+
+   Operations (Prog[a] is a sequence): "read", "write", "try_read", "try_write" - each followed by
+   the critical section (points rw.rcs / rw.wcs, placed by the harness) and the guard drop - and
+   "wpanic": write(), then panic inside the critical section (poisons the lock).
+   Guards that come back inside a Poisoned error are used like any other, as the property says.
+
+   Two defects of the pinned tree are switchable so that TLC shows them (Fix = FALSE) and checks
+   the repaired code (Fix = TRUE):
+     Fix1: try_read on a poisoned lock returned the guard via `?` *before* `*r += 1`
+     Fix2: a *lost CAS* in try_lock on a poisoned lock was reported as Poisoned, which every
+           caller treats as "acquired"                                                    *)
 EXTENDS Integers, FiniteSets, Sequences, TLC
 
-CONSTANTS Actors, Prog,         \* Prog[a] \in {"read","write","try_read","try_write"}
-          InitPoison,           \* BOOLEAN
-          Fix1,                 \* try_read increments before constructing the guard
-          Fix2                  \* lost CAS => WouldBlock
+CONSTANTS Actors, Victims, Prog, InitPoison, Fix1, Fix2
 
-VARIABLES cnt, toWake, token, rl, r, poison, pc, holds, bad
-vars == <<cnt, toWake, token, rl, r, poison, pc, holds, bad>>
+VARIABLES cnt, toWake, token, unparked, release,     \* global lock
+          rl, rlq, r, poison,                        \* rlock owner, rlock waiters, reader count
+          pc, ip, w, retTo, cont, cancelled, parked, res,
+          holds, bad
+vars == <<cnt, toWake, token, unparked, release, rl, rlq, r, poison, pc, ip, w, retTo, cont,
+          cancelled, parked, res, holds, bad>>
+
+MaxOps == 3
+Blockers == Actors \X (1..MaxOps)
+Me(a) == <<a, ip[a]>>
+NoB == <<"none", 0>>
+Op(a) == Prog[a][ip[a]]
+FirstPc(op) == CASE op = "read" -> "rw.read.rlock" [] op = "try_read" -> "rw.try_read.rlock"
+                 [] OTHER -> "rw.try.load"
+StartPc(a) == IF Len(Prog[a]) = 0 THEN "done" ELSE FirstPc(Prog[a][1])
 
 Init ==
-  /\ cnt = 0 /\ toWake = <<>> /\ token = [a \in Actors |-> FALSE]
-  /\ rl = "free" /\ r = 0 /\ poison = InitPoison
-  /\ pc = [a \in Actors |-> Prog[a] \o ".start"]
-  /\ holds = [a \in Actors |-> "none"]          \* "none" | "read" | "write"
+  /\ cnt = 0 /\ toWake = <<>>
+  /\ token = [b \in Blockers |-> FALSE] /\ unparked = [b \in Blockers |-> FALSE]
+  /\ release = [b \in Blockers |-> FALSE]
+  /\ rl = "free" /\ rlq = <<>> /\ r = 0 /\ poison = InitPoison
+  /\ ip = [a \in Actors |-> 1] /\ pc = [a \in Actors |-> StartPc(a)]
+  /\ w = [a \in Actors |-> NoB] /\ retTo = [a \in Actors |-> "none"]
+  /\ cont = [a \in Actors |-> "none"]      \* where a blocked rlock() continues
+  /\ cancelled = [a \in Actors |-> FALSE] /\ parked = [a \in Actors |-> FALSE]
+  /\ res = [a \in Actors |-> "none"]
+  /\ holds = [a \in Actors |-> "none"]     \* "none" | "read" | "write"  (a guard is alive)
   /\ bad = "ok"
 
-Goto(a, l) == pc' = [pc EXCEPT ![a] = l]
 Flag(c, m) == bad' = IF bad = "ok" /\ c THEN m ELSE bad
-IsReadPath(a) == Prog[a] \in {"read", "try_read"}
-Blocking(a) == Prog[a] \in {"read", "write"}
+UNCH_B == UNCHANGED <<token, unparked, release>>
+UNCH_G == UNCHANGED <<cnt, toWake>>
+UNCH_R == UNCHANGED <<rl, rlq, r>>
+IsRead(a) == Op(a) \in {"read", "try_read"}
 
-(* ---------------- the global lock: RwLock::lock / try_lock / unlock ---------------- *)
-\* after the global lock is (believed to be) held, continue here
-AfterGlobal(a) == IF IsReadPath(a) THEN (IF Prog[a] = "read" THEN "read.inc" ELSE "try_read.new_guard")
-                                   ELSE "write.new_guard"
-\* WouldBlock from try_lock
-AfterWouldBlock(a) == CASE Prog[a] = "read"      -> "g.push"
-                        [] Prog[a] = "write"     -> "g.push"
-                        [] Prog[a] = "try_read"  -> "try_read.fail_unlock_rlock"
-                        [] Prog[a] = "try_write" -> "done"
+(* ------------- rlock: abstract mutex with FIFO hand-off ------------- *)
+\* actor a (at pc[a]) calls rlock.lock() and continues at `next` once it owns it; pcs' is built
+\* from the function `base` (other updates of pc in the same step)
+RlAcquire(a, next, base) ==
+  IF rl = "free"
+    THEN /\ rl' = a /\ rlq' = rlq /\ pc' = [base EXCEPT ![a] = next] /\ cont' = cont
+    ELSE /\ rl' = rl /\ rlq' = Append(rlq, a) /\ pc' = [base EXCEPT ![a] = "rlock.blocked"]
+         /\ cont' = [cont EXCEPT ![a] = next]
+\* owner a releases rlock and moves to `next`; the first blocked locker (if any) gets it
+RlRelease(a, next, base) ==
+  IF rlq = <<>>
+    THEN /\ rl' = "free" /\ rlq' = rlq /\ pc' = [base EXCEPT ![a] = next] /\ cont' = cont
+    ELSE LET h == Head(rlq) IN
+         /\ rl' = h /\ rlq' = Tail(rlq)
+         /\ pc' = [base EXCEPT ![a] = next, ![h] = cont[h]]
+         /\ cont' = [cont EXCEPT ![h] = "none"]
 
-GTryLoad(a) ==
-  /\ pc[a] = "g.try_load"
-  /\ Goto(a, IF cnt = 0 THEN "g.try_cas" ELSE AfterWouldBlock(a))
-  /\ UNCHANGED <<cnt, toWake, token, rl, r, poison, holds, bad>>
-GTryCas(a) ==
-  /\ pc[a] = "g.try_cas"
-  /\ IF cnt = 0 THEN cnt' = 1 /\ Goto(a, AfterGlobal(a))
+(* ------------- the global lock: lock / try_lock / unlock ------------- *)
+\* where to go once the global lock is (believed to be) held
+Acquired(a) == CASE Op(a) = "read" -> "read.inc" [] Op(a) = "try_read" -> "try_read.guard"
+                 [] OTHER -> "write.guard"
+WouldBlock(a) == CASE Op(a) \in {"read", "write", "wpanic"} -> "rw.lock.push"
+                   [] Op(a) = "try_read" -> "try_read.fail"
+                   [] OTHER -> "next"
+
+TryLoad(a) ==
+  /\ pc[a] = "rw.try.load"
+  /\ pc' = [pc EXCEPT ![a] = IF cnt = 0 THEN "rw.try.cas" ELSE WouldBlock(a)]
+  /\ UNCHANGED <<ip, w, retTo, cont, cancelled, parked, res, holds, bad, poison>> /\ UNCH_B /\ UNCH_G /\ UNCH_R
+TryCas(a) ==
+  /\ pc[a] = "rw.try.cas"
+  /\ IF cnt = 0 THEN cnt' = 1 /\ pc' = [pc EXCEPT ![a] = Acquired(a)]
      ELSE /\ UNCHANGED cnt
-          /\ IF poison /\ ~Fix2 THEN Goto(a, AfterGlobal(a))      \* "Poisoned" == proceeds as owner
-                                ELSE Goto(a, AfterWouldBlock(a))
-  /\ UNCHANGED <<toWake, token, rl, r, poison, holds, bad>>
-GPush(a) ==
-  /\ pc[a] = "g.push" /\ toWake' = Append(toWake, a) /\ Goto(a, "g.inc")
-  /\ UNCHANGED <<cnt, token, rl, r, poison, holds, bad>>
-GInc(a) ==
-  /\ pc[a] = "g.inc" /\ cnt' = cnt + 1
-  /\ Goto(a, IF cnt = 0 THEN "g.selfpop" ELSE "g.park")
-  /\ UNCHANGED <<toWake, token, rl, r, poison, holds, bad>>
-GSelfPop(a) ==
-  /\ pc[a] = "g.selfpop"
-  /\ IF toWake # <<>> THEN token' = [token EXCEPT ![Head(toWake)] = TRUE] /\ toWake' = Tail(toWake)
-                      ELSE UNCHANGED <<token, toWake>>
-  /\ Flag(toWake = <<>>, "got null blocker!")
-  /\ Goto(a, "g.park")
-  /\ UNCHANGED <<cnt, rl, r, poison, holds>>
-GPark(a) ==
-  /\ pc[a] = "g.park" /\ token[a] /\ token' = [token EXCEPT ![a] = FALSE]
-  /\ Goto(a, AfterGlobal(a))
-  /\ UNCHANGED <<cnt, toWake, rl, r, poison, holds, bad>>
-\* unlock(): fetch_sub, then pop+unpark one waiter if there was one
-GUnlockDec(a, next) ==
-  /\ cnt' = cnt - 1
-  /\ Flag(cnt = 0, "cnt underflow in unlock")
-  /\ Goto(a, IF cnt > 1 THEN "gu.pop:" \o next ELSE next)
-GUnlockPop(a) ==
-  /\ \E next \in {"done", "runlock.unlock_rlock"} :
-       /\ pc[a] = "gu.pop:" \o next
-       /\ IF toWake # <<>> THEN token' = [token EXCEPT ![Head(toWake)] = TRUE] /\ toWake' = Tail(toWake)
-                           ELSE UNCHANGED <<token, toWake>>
-       /\ Flag(toWake = <<>>, "got null blocker!")
-       /\ Goto(a, next)
-  /\ UNCHANGED <<cnt, rl, r, poison, holds>>
+          /\ pc' = [pc EXCEPT ![a] = IF poison /\ ~Fix2 THEN Acquired(a) ELSE WouldBlock(a)]
+  /\ UNCHANGED <<toWake, ip, w, retTo, cont, cancelled, parked, res, holds, bad, poison>> /\ UNCH_B /\ UNCH_R
+LockPush(a) ==
+  /\ pc[a] = "rw.lock.push"
+  /\ toWake' = Append(toWake, Me(a)) /\ pc' = [pc EXCEPT ![a] = "rw.lock.inc"]
+  /\ UNCHANGED <<cnt, ip, w, retTo, cont, cancelled, parked, res, holds, bad, poison>> /\ UNCH_B /\ UNCH_R
+LockInc(a) ==
+  /\ pc[a] = "rw.lock.inc"
+  /\ cnt' = cnt + 1
+  /\ IF cnt = 0 THEN pc' = [pc EXCEPT ![a] = "rw.pop"] /\ retTo' = [retTo EXCEPT ![a] = "sb.park"]
+                ELSE pc' = [pc EXCEPT ![a] = "sb.park"] /\ UNCHANGED retTo
+  /\ UNCHANGED <<toWake, ip, w, cont, cancelled, parked, res, holds, bad, poison>> /\ UNCH_B /\ UNCH_R
+Pop(a) ==
+  /\ pc[a] = "rw.pop"
+  /\ toWake # <<>>
+  /\ w' = [w EXCEPT ![a] = Head(toWake)] /\ toWake' = Tail(toWake) /\ pc' = [pc EXCEPT ![a] = "sb.unpark"]
+  /\ UNCHANGED <<cnt, ip, retTo, cont, cancelled, parked, res, holds, bad, poison>> /\ UNCH_B /\ UNCH_R
+WakeUnpark(a) ==
+  /\ pc[a] = "sb.unpark"
+  /\ LET b == w[a]  t == b[1] IN
+       IF pc[t] = "parked" /\ parked[t] /\ Me(t) = b
+         THEN /\ parked' = [parked EXCEPT ![t] = FALSE] /\ res' = [res EXCEPT ![t] = "Ok"]
+              /\ pc' = [pc EXCEPT ![a] = "sb.set_unparked", ![t] = "sb.park.ret"]
+              /\ UNCHANGED token
+         ELSE /\ token' = [token EXCEPT ![b] = TRUE] /\ pc' = [pc EXCEPT ![a] = "sb.set_unparked"]
+              /\ UNCHANGED <<parked, res>>
+  /\ UNCHANGED <<unparked, release, ip, w, retTo, cont, cancelled, holds, bad, poison>> /\ UNCH_G /\ UNCH_R
+WakeSetUnparked(a) ==
+  /\ pc[a] = "sb.set_unparked"
+  /\ unparked' = [unparked EXCEPT ![w[a]] = TRUE] /\ pc' = [pc EXCEPT ![a] = "sb.take_release"]
+  /\ UNCHANGED <<token, release, ip, w, retTo, cont, cancelled, parked, res, holds, bad, poison>> /\ UNCH_G /\ UNCH_R
+\* take_release by the waker (on w[a]) or by the cancelled waiter (retTo = "c_recheck")
+TakeRelease(a) ==
+  /\ pc[a] = "sb.take_release"
+  /\ LET mine == retTo[a] = "c_recheck"
+         b == IF mine THEN Me(a) ELSE w[a] IN
+       /\ release' = [release EXCEPT ![b] = FALSE]
+       /\ IF release[b]
+            THEN /\ pc' = [pc EXCEPT ![a] = "rw.unlock.dec"]
+                 /\ retTo' = IF mine THEN [retTo EXCEPT ![a] = "canceled"] ELSE retTo
+            ELSE /\ pc' = [pc EXCEPT ![a] = IF mine THEN "canceled" ELSE retTo[a]] /\ UNCHANGED retTo
+  /\ UNCHANGED <<token, unparked, ip, w, cont, cancelled, parked, res, holds, bad, poison>> /\ UNCH_G /\ UNCH_R
+\* unlock(): fetch_sub; retTo says where the caller continues.  A read guard's drop still holds
+\* rlock here and releases it afterwards ("runlock.done").
+UnlockDec(a) ==
+  /\ pc[a] = "rw.unlock.dec"
+  /\ cnt' = cnt - 1 /\ Flag(cnt = 0, "global count underflow in unlock")
+  /\ pc' = [pc EXCEPT ![a] = IF cnt > 1 THEN "rw.pop" ELSE retTo[a]]
+  /\ UNCHANGED <<toWake, ip, w, retTo, cont, cancelled, parked, res, holds, poison>> /\ UNCH_B /\ UNCH_R
+ParkEnter(a) ==
+  /\ pc[a] = "sb.park"
+  /\ IF token[Me(a)]
+       THEN /\ token' = [token EXCEPT ![Me(a)] = FALSE] /\ res' = [res EXCEPT ![a] = "Ok"]
+            /\ pc' = [pc EXCEPT ![a] = "sb.park.ret"] /\ UNCHANGED parked
+       ELSE IF cancelled[a]
+         THEN /\ res' = [res EXCEPT ![a] = "Canceled"] /\ pc' = [pc EXCEPT ![a] = "sb.park.ret"]
+              /\ UNCHANGED <<token, parked>>
+         ELSE /\ parked' = [parked EXCEPT ![a] = TRUE] /\ pc' = [pc EXCEPT ![a] = "parked"]
+              /\ UNCHANGED <<token, res>>
+  /\ UNCHANGED <<unparked, release, ip, w, retTo, cont, cancelled, holds, bad, poison>> /\ UNCH_G /\ UNCH_R
+ParkReturn(a) ==
+  /\ pc[a] = "sb.park.ret"
+  /\ IF res[a] = "Ok"
+       THEN pc' = [pc EXCEPT ![a] = Acquired(a)] /\ UNCHANGED token
+       ELSE /\ token' = [token EXCEPT ![Me(a)] = FALSE]
+            /\ pc' = [pc EXCEPT ![a] = "sb.is_unparked"]
+  /\ UNCHANGED <<unparked, release, ip, w, retTo, cont, cancelled, parked, res, holds, bad, poison>> /\ UNCH_G /\ UNCH_R
+IsUnparked(a) ==
+  /\ pc[a] = "sb.is_unparked"
+  /\ IF retTo[a] # "c_second"
+       THEN IF unparked[Me(a)]
+              THEN pc' = [pc EXCEPT ![a] = "rw.unlock.dec"] /\ retTo' = [retTo EXCEPT ![a] = "canceled"]
+              ELSE pc' = [pc EXCEPT ![a] = "sb.set_release"] /\ UNCHANGED retTo
+       ELSE IF unparked[Me(a)]
+              THEN pc' = [pc EXCEPT ![a] = "sb.take_release"] /\ retTo' = [retTo EXCEPT ![a] = "c_recheck"]
+              ELSE pc' = [pc EXCEPT ![a] = "canceled"] /\ UNCHANGED retTo
+  /\ UNCHANGED <<ip, w, cont, cancelled, parked, res, holds, bad, poison>> /\ UNCH_B /\ UNCH_G /\ UNCH_R
+SetRelease(a) ==
+  /\ pc[a] = "sb.set_release"
+  /\ release' = [release EXCEPT ![Me(a)] = TRUE] /\ pc' = [pc EXCEPT ![a] = "sb.is_unparked"]
+  /\ retTo' = [retTo EXCEPT ![a] = "c_second"]
+  /\ UNCHANGED <<token, unparked, ip, w, cont, cancelled, parked, res, holds, bad, poison>> /\ UNCH_G /\ UNCH_R
+\* lock() returned Err(Canceled): write() panics; read() first releases rlock (internal, no point)
+Canceled(a) ==
+  /\ pc[a] = "canceled"
+  /\ IF Op(a) = "read" THEN RlRelease(a, "dead", pc) /\ UNCHANGED r
+                       ELSE pc' = [pc EXCEPT ![a] = "dead"] /\ UNCH_R /\ UNCHANGED cont
+  /\ UNCHANGED <<ip, w, retTo, cancelled, parked, res, holds, bad, poison>> /\ UNCH_B /\ UNCH_G
 
-(* ---------------- read / try_read ---------------- *)
-ReadStart(a) ==
-  /\ pc[a] = "read.start" /\ rl = "free" /\ rl' = a              \* rlock.lock()
-  /\ Goto(a, IF r = 0 THEN "g.try_load" ELSE "read.inc")
-  /\ UNCHANGED <<cnt, toWake, token, r, poison, holds, bad>>
+(* ------------- read / try_read ------------- *)
+ReadRlock(a) ==
+  /\ pc[a] = "rw.read.rlock"
+  /\ RlAcquire(a, "read.check", pc)
+  /\ UNCHANGED <<r, ip, w, retTo, cancelled, parked, res, holds, bad, poison>> /\ UNCH_B /\ UNCH_G
+\* internal: `if *r == 0 { self.lock() }`
+ReadCheck(a) ==
+  /\ pc[a] = "read.check"
+  /\ pc' = [pc EXCEPT ![a] = IF r = 0 THEN "rw.try.load" ELSE "read.inc"]
+  /\ UNCHANGED <<ip, w, retTo, cont, cancelled, parked, res, holds, bad, poison>> /\ UNCH_B /\ UNCH_G /\ UNCH_R
+\* internal: `*r += 1`, guard constructed (Ok or inside Poisoned), rlock released
 ReadInc(a) ==
-  /\ pc[a] = "read.inc" /\ r' = r + 1 /\ holds' = [holds EXCEPT ![a] = "read"]
-  /\ rl' = "free" /\ Goto(a, "holding")                          \* guard returned (Ok or Err(Poisoned(g)))
-  /\ UNCHANGED <<cnt, toWake, token, poison, bad>>
-TryReadStart(a) ==
-  /\ pc[a] = "try_read.start"
-  /\ IF rl = "free" THEN rl' = a /\ Goto(a, IF r = 0 THEN "g.try_load" ELSE "try_read.new_guard")
-                    ELSE UNCHANGED rl /\ Goto(a, "done")
-  /\ UNCHANGED <<cnt, toWake, token, r, poison, holds, bad>>
+  /\ pc[a] = "read.inc"
+  /\ r' = r + 1 /\ holds' = [holds EXCEPT ![a] = "read"]
+  /\ RlRelease(a, "rw.rcs", pc)
+  /\ UNCHANGED <<ip, w, retTo, cancelled, parked, res, bad, poison>> /\ UNCH_B /\ UNCH_G
+TryReadRlock(a) ==
+  /\ pc[a] = "rw.try_read.rlock"
+  /\ IF rl = "free" THEN rl' = a /\ pc' = [pc EXCEPT ![a] = "try_read.check"]
+                    ELSE UNCHANGED rl /\ pc' = [pc EXCEPT ![a] = "next"]
+  /\ UNCHANGED <<rlq, r, ip, w, retTo, cont, cancelled, parked, res, holds, bad, poison>> /\ UNCH_B /\ UNCH_G
+TryReadCheck(a) ==
+  /\ pc[a] = "try_read.check"
+  /\ pc' = [pc EXCEPT ![a] = IF r = 0 THEN "rw.try.load" ELSE "try_read.guard"]
+  /\ UNCHANGED <<ip, w, retTo, cont, cancelled, parked, res, holds, bad, poison>> /\ UNCH_B /\ UNCH_G /\ UNCH_R
 TryReadFail(a) ==
-  /\ pc[a] = "try_read.fail_unlock_rlock" /\ rl' = "free" /\ Goto(a, "done")
-  /\ UNCHANGED <<cnt, toWake, token, r, poison, holds, bad>>
-TryReadNewGuard(a) ==     \* let g = RwLockReadGuard::new(self)?;  *r += 1;
-  /\ pc[a] = "try_read.new_guard"
+  /\ pc[a] = "try_read.fail"
+  /\ RlRelease(a, "next", pc)
+  /\ UNCHANGED <<r, ip, w, retTo, cancelled, parked, res, holds, bad, poison>> /\ UNCH_B /\ UNCH_G
+\* internal: `let g = RwLockReadGuard::new(self)?; *r += 1;` (as written) - the `?` leaves before the
+\* increment when the lock is poisoned
+TryReadGuard(a) ==
+  /\ pc[a] = "try_read.guard"
   /\ r' = IF poison /\ ~Fix1 THEN r ELSE r + 1
-  /\ holds' = [holds EXCEPT ![a] = "read"] /\ rl' = "free" /\ Goto(a, "holding")
-  /\ UNCHANGED <<cnt, toWake, token, poison, bad>>
-\* drop of a read guard
-RUnlockStart(a) ==
-  /\ pc[a] = "holding" /\ holds[a] = "read" /\ rl = "free" /\ rl' = a
-  /\ holds' = [holds EXCEPT ![a] = "none"] /\ Goto(a, "runlock.dec")
-  /\ UNCHANGED <<cnt, toWake, token, r, poison, bad>>
-RUnlockDec(a) ==
-  /\ pc[a] = "runlock.dec" /\ r' = r - 1
-  /\ IF r = 1 THEN GUnlockDec(a, "runlock.unlock_rlock") /\ UNCHANGED <<toWake, token>>
-              ELSE /\ Goto(a, "runlock.unlock_rlock") /\ UNCHANGED <<cnt, toWake, token>>
-                   /\ Flag(r = 0, "reader count underflow (attempt to subtract with overflow)")
-  /\ UNCHANGED <<rl, poison, holds>>
-RUnlockRl(a) ==
-  /\ pc[a] = "runlock.unlock_rlock" /\ rl' = "free" /\ Goto(a, "done")
-  /\ UNCHANGED <<cnt, toWake, token, r, poison, holds, bad>>
+  /\ holds' = [holds EXCEPT ![a] = "read"]
+  /\ RlRelease(a, "rw.rcs", pc)
+  /\ UNCHANGED <<ip, w, retTo, cancelled, parked, res, bad, poison>> /\ UNCH_B /\ UNCH_G
+\* the critical section of a reader ends: guard drop = read_unlock()
+LeaveRcs(a) ==
+  /\ pc[a] = "rw.rcs"
+  /\ pc' = [pc EXCEPT ![a] = "rw.read_unlock.rlock"]
+  /\ UNCHANGED <<ip, w, retTo, cont, cancelled, parked, res, holds, bad, poison>> /\ UNCH_B /\ UNCH_G /\ UNCH_R
+ReadUnlockRlock(a) ==
+  /\ pc[a] = "rw.read_unlock.rlock"
+  /\ RlAcquire(a, "runlock.dec", pc)
+  /\ UNCHANGED <<r, ip, w, retTo, cancelled, parked, res, holds, bad, poison>> /\ UNCH_B /\ UNCH_G
+\* internal: `*r -= 1; if *r == 0 { self.unlock() }`
+RunlockDec(a) ==
+  /\ pc[a] = "runlock.dec"
+  /\ r' = r - 1 /\ Flag(r = 0, "reader count underflow (attempt to subtract with overflow)")
+  /\ holds' = [holds EXCEPT ![a] = "none"]
+  /\ IF r = 1 THEN pc' = [pc EXCEPT ![a] = "rw.unlock.dec"] /\ retTo' = [retTo EXCEPT ![a] = "runlock.done"]
+              ELSE pc' = [pc EXCEPT ![a] = "runlock.done"] /\ UNCHANGED retTo
+  /\ UNCHANGED <<rl, rlq, ip, w, cont, cancelled, parked, res, poison>> /\ UNCH_B /\ UNCH_G
+RunlockDone(a) ==
+  /\ pc[a] = "runlock.done"
+  /\ RlRelease(a, "next", pc)
+  /\ UNCHANGED <<r, ip, w, retTo, cancelled, parked, res, holds, bad, poison>> /\ UNCH_B /\ UNCH_G
 
-(* ---------------- write / try_write ---------------- *)
-WriteStart(a) ==
-  /\ pc[a] \in {"write.start", "try_write.start"} /\ Goto(a, "g.try_load")
-  /\ UNCHANGED <<cnt, toWake, token, rl, r, poison, holds, bad>>
-WriteNewGuard(a) ==
-  /\ pc[a] = "write.new_guard" /\ holds' = [holds EXCEPT ![a] = "write"] /\ Goto(a, "holding")
-  /\ UNCHANGED <<cnt, toWake, token, rl, r, poison, bad>>
-WUnlock(a) ==
-  /\ pc[a] = "holding" /\ holds[a] = "write" /\ holds' = [holds EXCEPT ![a] = "none"]
-  /\ GUnlockDec(a, "done")
-  /\ UNCHANGED <<toWake, token, rl, r, poison>>
+(* ------------- write / try_write / wpanic ------------- *)
+WriteGuard(a) ==
+  /\ pc[a] = "write.guard"
+  /\ holds' = [holds EXCEPT ![a] = "write"] /\ pc' = [pc EXCEPT ![a] = "rw.wcs"]
+  /\ UNCHANGED <<ip, w, retTo, cont, cancelled, parked, res, bad, poison>> /\ UNCH_B /\ UNCH_G /\ UNCH_R
+\* the writer leaves its critical section (normally or by a panic): guard drop = unlock()
+LeaveWcs(a) ==
+  /\ pc[a] = "rw.wcs"
+  /\ poison' = (poison \/ Op(a) = "wpanic")
+  /\ holds' = [holds EXCEPT ![a] = "none"]
+  /\ pc' = [pc EXCEPT ![a] = "rw.unlock.dec"]
+  /\ retTo' = [retTo EXCEPT ![a] = IF Op(a) = "wpanic" THEN "dead" ELSE "next"]
+  /\ UNCHANGED <<ip, w, cont, cancelled, parked, res, bad>> /\ UNCH_B /\ UNCH_G /\ UNCH_R
 
-AllOver == \A a \in Actors : pc[a] = "done"
+NextOp(a) ==
+  /\ pc[a] = "next"
+  /\ IF ip[a] < Len(Prog[a])
+       THEN ip' = [ip EXCEPT ![a] = ip[a] + 1] /\ pc' = [pc EXCEPT ![a] = FirstPc(Prog[a][ip[a] + 1])]
+       ELSE UNCHANGED ip /\ pc' = [pc EXCEPT ![a] = "done"]
+  /\ retTo' = [retTo EXCEPT ![a] = "none"] /\ w' = [w EXCEPT ![a] = NoB] /\ res' = [res EXCEPT ![a] = "none"]
+  /\ UNCHANGED <<cont, cancelled, parked, holds, bad, poison>> /\ UNCH_B /\ UNCH_G /\ UNCH_R
+
+Cancel(a) ==
+  /\ a \in Victims /\ ~cancelled[a] /\ pc[a] \notin {"done", "dead"}
+  /\ cancelled' = [cancelled EXCEPT ![a] = TRUE]
+  /\ IF pc[a] = "parked" /\ ~token[Me(a)]
+       THEN /\ parked' = [parked EXCEPT ![a] = FALSE] /\ res' = [res EXCEPT ![a] = "Canceled"]
+            /\ pc' = [pc EXCEPT ![a] = "sb.park.ret"]
+       ELSE UNCHANGED <<parked, res, pc>>
+  /\ UNCHANGED <<ip, w, retTo, cont, holds, bad, poison>> /\ UNCH_B /\ UNCH_G /\ UNCH_R
+
+Step(a) ==
+  \/ TryLoad(a) \/ TryCas(a) \/ LockPush(a) \/ LockInc(a) \/ Pop(a) \/ WakeUnpark(a) \/ WakeSetUnparked(a)
+  \/ TakeRelease(a) \/ UnlockDec(a) \/ ParkEnter(a) \/ ParkReturn(a) \/ IsUnparked(a) \/ SetRelease(a)
+  \/ ReadRlock(a) \/ TryReadRlock(a) \/ LeaveRcs(a) \/ ReadUnlockRlock(a) \/ LeaveWcs(a)
+Internal(a) ==
+  \/ ReadCheck(a) \/ ReadInc(a) \/ TryReadCheck(a) \/ TryReadFail(a) \/ TryReadGuard(a) \/ RunlockDec(a)
+  \/ RunlockDone(a) \/ WriteGuard(a) \/ Canceled(a) \/ NextOp(a)
+\* labels at which an actor performs internal steps (no verification point): under the baton these
+\* complete before anybody else moves
+InternalPcs == {"read.check", "read.inc", "try_read.check", "try_read.fail", "try_read.guard", "runlock.dec", "runlock.done", "write.guard", "canceled", "next"}
+Obs(a) == IF pc[a] = "sb.park.ret" THEN (IF res[a] = "Ok" THEN 0 ELSE 2) ELSE -1
+
+AllOver == \A a \in Actors : pc[a] \in {"done", "dead"}
 Stutter == AllOver /\ UNCHANGED vars
-Next ==
-  \/ \E a \in Actors :
-       GTryLoad(a) \/ GTryCas(a) \/ GPush(a) \/ GInc(a) \/ GSelfPop(a) \/ GPark(a) \/ GUnlockPop(a)
-       \/ ReadStart(a) \/ ReadInc(a) \/ TryReadStart(a) \/ TryReadFail(a) \/ TryReadNewGuard(a)
-       \/ RUnlockStart(a) \/ RUnlockDec(a) \/ RUnlockRl(a)
-       \/ WriteStart(a) \/ WriteNewGuard(a) \/ WUnlock(a)
-  \/ Stutter
+Next == (\E a \in Actors : Step(a) \/ Internal(a) \/ Cancel(a)) \/ Stutter
 Spec == Init /\ [][Next]_vars
-
-Writers == {a \in Actors : holds[a] = "write"}
-Readers == {a \in Actors : holds[a] = "read"}
+-----------------------------------------------------------------------------
+Writers == {a \in Actors : pc[a] = "rw.wcs"}
+Readers == {a \in Actors : pc[a] = "rw.rcs"}
 RWExclusion   == Cardinality(Writers) <= 1 /\ ~(Writers # {} /\ Readers # {})
 NothingBad    == bad = "ok"
-GuardsBalance == AllOver => (cnt = 0 /\ r = 0)
+PopNeverEmpty == \A a \in Actors : pc[a] = "rw.pop" => toWake # <<>>
+\* once all guards are dropped the lock is free again (stale blockers of cancelled waiters may
+\* remain queued, counted in cnt, exactly as for Mutex)
+GuardsBalance == AllOver => (cnt = Len(toWake) /\ r = 0 /\ rl = "free")
 =============================================================================
